@@ -60,7 +60,9 @@ CATALOGUE = {
         "K.sig-missing", "K.alg-missing", "K.x5c-missing", "K.chain-broken", "K.root-unknown", "K.sig-other-data",
         "K.sig-other-key", "K.certkey-ne-credkey", "K.keydesc-missing", "K.challenge-ne-cdjhash",
         "K.allapps-software", "K.allapps-tee", "K.origin-imported", "K.origin-absent", "K.purpose-sign-verify",
-        "K.purpose-verify", "K.purpose-absent"],
+        "K.purpose-verify", "K.purpose-absent",
+        # the right values, but only software-enforced: the hardware-backed list lacks them
+        "K.origin-software-only", "K.purpose-software-only", "K.origin-and-purpose-software-only"],
     "android-safetynet": [
         "S.ver-missing", "S.response-missing", "S.jws-two-parts", "S.jws-four-parts", "S.nonce-other-data",
         "S.basicintegrity-false", "S.basicintegrity-missing", "S.basicintegrity-string-false", "S.basicintegrity-null-string", "S.ts-past", "S.ts-future", "S.ts-in-seconds", "S.ts-in-microseconds", "S.ts-zero", "S.ts-nan", "S.ts-minus-infinity", "S.cn-other", "S.cn-missing",
@@ -714,9 +716,15 @@ def _key_description(b: _Build, pub) -> bytes:
     origin = android_asn1.KM_ORIGIN_IMPORTED if b.has("K.origin-imported") else android_asn1.KM_ORIGIN_GENERATED
     software = {"creationDateTime": int(b.base_time.timestamp() * 1000),
                 "attestationApplicationId": b"com.example.sim", "allApplications": b.has("K.allapps-software") or None}
-    tee = {"purpose": None if b.has("K.purpose-absent") else purpose, **_keymaster_key_params(pub),
+    origin_sw = b.has("K.origin-software-only") or b.has("K.origin-and-purpose-software-only")
+    purpose_sw = b.has("K.purpose-software-only") or b.has("K.origin-and-purpose-software-only")
+    if origin_sw:
+        software["origin"] = origin
+    if purpose_sw:
+        software["purpose"] = purpose
+    tee = {"purpose": None if b.has("K.purpose-absent") or purpose_sw else purpose, **_keymaster_key_params(pub),
            "digest": {android_asn1.KM_DIGEST_SHA_2_256}, "noAuthRequired": True,
-           "allApplications": b.has("K.allapps-tee") or None, "origin": None if b.has("K.origin-absent") else origin,
+           "allApplications": b.has("K.allapps-tee") or None, "origin": None if b.has("K.origin-absent") or origin_sw else origin,
            "osVersion": 130000, "osPatchLevel": 202401}
     return android_asn1.encode_key_description(challenge, software_enforced=software, tee_enforced=tee)
 
